@@ -14,6 +14,7 @@ package main
 import (
 	"errors"
 	"fmt"
+	"reflect"
 	"strconv"
 	"strings"
 	"sync"
@@ -45,6 +46,7 @@ type scen struct {
 	R, X, L  []string
 	G, H     []string
 	execCnt  []int
+	ret      []any // what the handler returned on its first run (pointer identity)
 	received []bool
 	left     []bool
 	lastRecv int64
@@ -76,21 +78,96 @@ func tag(sp sendSpec) string { return fmt.Sprintf("%d.%d", sp.p, sp.i) }
 
 func isCb(kind string) bool { return strings.HasPrefix(kind, "cb") || strings.HasPrefix(kind, "cd") }
 
-func showPair(v any, e error) string {
-	a, b := "nil", "nil"
-	if v != nil {
-		a = fmt.Sprint(v)
+// ---- handler results: shapes and canonical rendering (dynamic type + value / identity; no spaces)
+type box struct{ V int }
+type resErr struct{ V int } // a result that is itself an error value
+
+func (r resErr) Error() string { return "E" + strconv.Itoa(r.V) }
+
+type perr struct{ V int }
+
+func (p *perr) Error() string { return "P" }
+
+func nosp(s string) string { return strings.ReplaceAll(s, " ", "_") }
+
+// render shows a result with its dynamic type, so that (*T)(nil) and nil differ; `same` is the pointer the handler
+// returned (identity is compared for non-nil pointers).
+func render(v any, same any) string {
+	if v == nil {
+		return "nil"
 	}
-	if e != nil {
-		b = e.Error()
+	t := nosp(fmt.Sprintf("%T", v))
+	rv := reflect.ValueOf(v)
+	switch rv.Kind() {
+	case reflect.Ptr:
+		if rv.IsNil() {
+			return t + "(nil)"
+		}
+		id := "#other"
+		if same != nil && reflect.ValueOf(same).Kind() == reflect.Ptr && reflect.ValueOf(same).Pointer() == rv.Pointer() {
+			id = "#id"
+		}
+		return t + id + "=" + nosp(fmt.Sprintf("%v", rv.Elem().Interface()))
+	case reflect.Map, reflect.Slice, reflect.Chan, reflect.Func:
+		if rv.IsNil() {
+			return t + "(nil)"
+		}
 	}
-	return a + "/" + b
+	return t + "=" + nosp(fmt.Sprintf("%v", v))
+}
+
+func renderErr(e error) string {
+	if e == nil {
+		return "nil"
+	}
+	return nosp(fmt.Sprintf("%T", e)) + "=" + nosp(e.Error())
+}
+
+func showPair(v any, e error, same any) string { return render(v, same) + "/" + renderErr(e) }
+
+// result shape of a kind code: codes 0..3 = (nil|int) x (nil|err); code >= 4: shape code/4+1, err bit = bit 1
+func resShape(code int) int {
+	if code < 4 {
+		return code % 2
+	}
+	return code/4 + 1
 }
 
 func pairOf(code int, v int) (any, error) {
 	var a any
 	var e error
-	if code%2 == 1 {
+	switch resShape(code) {
+	case 0:
+		a = nil
+	case 1:
+		a = v
+	case 2:
+		a = (*box)(nil)
+	case 3:
+		a = map[string]int(nil)
+	case 4:
+		a = []string(nil)
+	case 5:
+		a = (chan int)(nil)
+	case 6:
+		a = (func() int)(nil)
+	case 7:
+		a = &box{v}
+	case 8:
+		a = box{v}
+	case 9:
+		a = [2]int{v, v + 1}
+	case 10:
+		a = "s" + strconv.Itoa(v)
+	case 11:
+		a = resErr{v}
+	case 12:
+		a = []int{v}
+	case 13:
+		a = map[string]int{"k": v}
+	case 14:
+		a = (*perr)(nil)
+	default:
 		a = v
 	}
 	if code/2%2 == 1 {
@@ -131,14 +208,33 @@ func (sc *scen) handle(g int) (any, error) {
 		if phase == 1 {
 			v, e = pairOf(code, val)
 		} else {
-			v, e = pairOf((code+1)%4, val+500000)
+			v, e = pairOf((code%4+1)%4, val+500000)
 		}
-		s = showPair(v, e)
+		s = showPair(v, e, v)
 	}
 	sc.mu.Lock()
+	if phase == 1 {
+		sc.ret[g] = v
+	}
 	sc.X = append(sc.X, fmt.Sprintf("%s@%d=%s", tag(sp), sc.rel(), s))
 	sc.mu.Unlock()
 	return v, e
+}
+
+// safeDo calls t.Do and reports a panic inside Do as a distinct observation `p.i@t!panic` in the X section.
+func (sc *scen) safeDo(t taskx.Task) {
+	defer func() {
+		if r := recover(); r != nil {
+			sc.mu.Lock()
+			who := "?"
+			if sc.lastG >= 0 {
+				who = tag(sc.sends[sc.lastG])
+			}
+			sc.X = append(sc.X, fmt.Sprintf("%s@%d!panic", who, sc.rel()))
+			sc.mu.Unlock()
+		}
+	}()
+	_ = t.Do(nil)
 }
 
 type userTask struct {
@@ -212,6 +308,7 @@ func exec(c *hx.Ctx, line string) string {
 	sc.G = make([]string, n)
 	sc.H = make([]string, n)
 	sc.execCnt = make([]int, n)
+	sc.ret = make([]any, n)
 	sc.received = make([]bool, n)
 	sc.left = make([]bool, n)
 	byProd := make([][]sendSpec, nP)
@@ -257,7 +354,10 @@ func exec(c *hx.Ctx, line string) string {
 					gs := "NILTASK"
 					if t != nil {
 						v, e := t.Get2()
-						gs = showPair(v, e)
+						gs = showPair(v, e, nil)
+						if g1 := render(t.Get1(), nil); g1 != render(v, nil) {
+							gs += "~get1:" + g1
+						}
 					}
 					sc.mu.Lock()
 					sc.G[g] = fmt.Sprintf("%s@%d=%s", tag(sp), sc.rel(), gs)
@@ -298,11 +398,16 @@ func exec(c *hx.Ctx, line string) string {
 					} else {
 						go func() {
 							v, e := task.Get2()
+							v1 := task.Get1()
 							if sc.finished.Load() {
 								return
 							}
 							sc.mu.Lock()
-							sc.G[g] = fmt.Sprintf("%s@%d=%s", tag(sp), sc.rel(), showPair(v, e))
+							gs := showPair(v, e, sc.ret[g])
+							if g1 := render(v1, sc.ret[g]); g1 != render(v, sc.ret[g]) {
+								gs += "~get1:" + g1
+							}
+							sc.G[g] = fmt.Sprintf("%s@%d=%s", tag(sp), sc.rel(), gs)
 							sc.mu.Unlock()
 						}()
 					}
@@ -328,13 +433,13 @@ func exec(c *hx.Ctx, line string) string {
 				sc.lastG = -1
 				sc.mu.Unlock()
 				ncons++
-				_ = t.Do(nil)
+				sc.safeDo(t)
 				sc.mu.Lock()
 				g := sc.lastG
 				again := g >= 0 && strings.HasPrefix(sc.sends[g].kind, "cd") && sc.execCnt[g] == 1
 				sc.mu.Unlock()
 				if again {
-					_ = t.Do(nil)
+					sc.safeDo(t)
 				}
 				if cstop >= 0 && int64(ncons) >= cstop {
 					stopped.Store(true)
@@ -389,7 +494,7 @@ func exec(c *hx.Ctx, line string) string {
 		go func(g int, sp sendSpec, t taskx.Task) {
 			v, e := t.Get2()
 			sc.mu.Lock()
-			sc.H[g] = tag(sp) + "=" + showPair(v, e)
+			sc.H[g] = tag(sp) + "=" + showPair(v, e, sc.ret[g])
 			sc.mu.Unlock()
 		}(g, sp, r.task)
 	}
